@@ -52,6 +52,21 @@ def corrupt(rng, text, which):
     return kind, "\n".join(lines)
 
 
+def edge_names(rng, a):
+    """some scaffold names with white space at an edge that only TAB-splitting keeps (a blank inside,
+    a leading blank, a trailing VT / US / no-break space): legal, and a scaffold is still ONE scaffold"""
+    if rng.random() < 0.5:
+        return a
+    seen = set()
+    for sc in a["scaffolds"]:
+        if rng.random() < 0.6:
+            sc["name"] = rng.choice([" {}", "{}\x0b", "{}\x1f", "{} x", "\x1c{}"]).format(sc["name"] or "s")
+        while sc["name"] in seen:
+            sc["name"] += "_"
+        seen.add(sc["name"])
+    return a
+
+
 class C05(Prop):
     pid = "C05"
     imports = "From Tola Require Import Py.Base Model.Fragment Model.Fasta Model.AgpTpf Corr.AgpTpf."
@@ -89,7 +104,7 @@ class C05(Prop):
         for k in range(24 if tier == "quick" else 200):
             nfiles = 1 + k % 3
             yield {"gen": f"cli/{nfiles}files", "kind": "cli", "fmt": "tpf",
-                   "inputs": [{"fmt": rng.choice(["agp", "tpf"]), "asm": T.gen_asm(rng, tpf_able=True, maxcoord=10**6)}
+                   "inputs": [{"fmt": rng.choice(["agp", "tpf"]), "asm": edge_names(rng, T.gen_asm(rng, tpf_able=True, maxcoord=10**6))}
                               for _ in range(nfiles)],
                    "out": rng.choice(["agp", "tpf"])}
 
@@ -112,10 +127,12 @@ class C05(Prop):
             out.unlink()
         r1 = CliRunner().invoke(asm_format.cli, [*paths, "-o", str(out)])
         r2 = CliRunner().invoke(asm_format.cli, [*paths, "-f", case["out"].upper()])
+        # a diagnostics flag must not change what is written
+        r3 = CliRunner().invoke(asm_format.cli, [*paths, "-f", case["out"].upper(), "--qc-overlaps"])
         import gc
         gc.collect()          # the -o handle is never closed by the script: flushed when collected
-        return {"exit": [r1.exit_code, r2.exit_code], "file": out.read_text() if out.exists() else None,
-                "stdout": r2.stdout, "inputs": texts}
+        return {"exit": [r1.exit_code, r2.exit_code, r3.exit_code], "file": out.read_text() if out.exists() else None,
+                "stdout": r2.stdout, "stdout with --qc-overlaps": r3.stdout, "inputs": texts}
 
     def run_impl(self, case):
         which = case["fmt"]
@@ -156,7 +173,7 @@ class C05(Prop):
     def oracle(self, case, obs):
         which = case["fmt"]
         if case["kind"] == "cli":
-            if obs["exit"] != [0, 0]:
+            if obs["exit"] != [0, 0, 0]:
                 return f"asm-format exited {obs['exit']} on valid input files"
             want = ""
             nrows = 0
@@ -164,7 +181,7 @@ class C05(Prop):
                 a = inp["asm"] if inp["fmt"] == "agp" else drop_tags(inp["asm"])
                 want += T.fmt(a, case["out"])
                 nrows += sum(len(sc["rows"]) for sc in a["scaffolds"])
-            for where in ("file", "stdout"):
+            for where in ("file", "stdout", "stdout with --qc-overlaps"):
                 got = obs[where]
                 if got is None:
                     return "asm-format -o wrote no file"
